@@ -255,6 +255,12 @@ fn main() {
     if mode == "fakepacman" {
         std::process::exit(fakepacman::main(&args[2..]));
     }
+    if mode == "argvdump" {
+        // vh argvdump <outfile> args... : writes the arguments it received, hex encoded, one per line
+        let body: Vec<String> = args[3..].iter().map(|a| hex(a.as_bytes())).collect();
+        std::fs::write(&args[2], format!("{}\n{}\n", body.len(), body.join("\n"))).unwrap();
+        return;
+    }
     if mode == "probe" {
         println!("{}", run_probe());
         return;
